@@ -158,6 +158,16 @@ Theorem C20_stream_handlers_check_every_message :
   /\ in_loop_before (is_check "v4 != v0.server.ClusterID()") (is_call "syncHistoryRegion") skel_SyncerSync = true.
 Proof. exact stream_checks_every_message_pf. Qed.
 
+(* ---- one identity under configuration updates: PutClusterConfig is the other writer of the cluster record.  Whatever
+        list of bodies is sent (no body, unset id = 0, another id, the right id), the id of the stored and served cluster
+        meta stays the cluster's: RaftCluster.PutConfig refuses every body whose id is not the cluster's ---- *)
+Theorem C20_cluster_config_keeps_identity :
+  forall c bodies meta, fst meta = c -> fst (fold_left (put_meta c) bodies meta) = c.
+Proof. exact config_identity_pf. Qed.
+
+Theorem C20_put_config_compares_cluster_id : In (IfE "v1.GetId() != v0.clusterID" [Ret] []) skel_PutConfig.
+Proof. exact put_config_compares. Qed.
+
 (* non-vacuity: three concurrent valid requests, a lost one, a fault, a reload, a late request; three members *)
 Example C20_nonvacuous :
   let p n := Payload (Some (1000 + n)) (Some (Region (2000 + n) true true [Peer (3000 + n) (1000 + n)])) in
@@ -189,6 +199,8 @@ Print Assumptions C20_member_obtains_id.
 Print Assumptions C20_mismatched_id_refused.
 Print Assumptions C20_validateRequest_compares_cluster_id.
 Print Assumptions C20_nothing_before_validation.
+Print Assumptions C20_cluster_config_keeps_identity.
+Print Assumptions C20_put_config_compares_cluster_id.
 Print Assumptions C20_stream_refusal_is_per_message.
 Print Assumptions C20_stream_stops_at_refusal.
 Print Assumptions C20_stream_handlers_check_every_message.
